@@ -29,7 +29,7 @@ CAP_RUNS = 256      # runs of an id sequence written to the trace (exact count i
 CAP_RECS = 256
 VARIANTS = [(False, False), (False, True), (True, False), (True, True)]
 COMPRESSIONS = ['NONE', 'snappy', 'gzip', 'zstd']
-MODES = ['path', 'bytesio', 'fileobj']
+MODES = ['path', 'bytesio', 'fileobj', 'pathlib']
 FILE_CLAUSES = ('corrupt-rows', 'duplicate-rows', 'missing-rows', 'order')   # about the file
 
 
@@ -71,9 +71,12 @@ def make_rows(kind, n, rowseed):
         elif kind == 'ids-period':       # a periodic signal: batches with equal content
             rows.append({'id': 1 + i % (1 + rowseed % 3)})
         elif kind == 'flat':
-            rows.append({'id': i, 's': rng.choice(_WORDS),
-                         'f': rng.choice([0.0, -0.0, 1.5, -2.25, 1e300, 5e-324, 0.1, float(i)]),
-                         'k': rng.choice([0, -1, 2 ** 31 - 1, -2 ** 31, i % 7])})
+            row = {'id': i, 's': rng.choice(_WORDS),
+                   'f': rng.choice([0.0, -0.0, 1.5, -2.25, 1e300, 5e-324, 0.1, float(i)]),
+                   'k': rng.choice([0, -1, 2 ** 31 - 1, -2 ** 31, i % 7])}
+            if i % 3 == 2:       # the same fields in another key order (rows merged from two producers)
+                row = {k: row[k] for k in ('k', 'f', 's', 'id')}
+            rows.append(row)
         else:
             rows.append({
                 'id': i,
@@ -189,6 +192,9 @@ def execute(case, tmpdir):
     sink = None
     if mode == 'path':
         target = path
+    elif mode == 'pathlib':
+        import pathlib
+        target = pathlib.Path(path)
     elif mode == 'bytesio':
         target = sink = io.BytesIO()
     else:
@@ -226,7 +232,7 @@ def execute(case, tmpdir):
     res = {'file_ids': [], 'rg_meta': [], 'loaded': [], 'load_state': ['open']}
 
     def src():
-        if mode == 'path':
+        if mode in ('path', 'pathlib'):
             return path
         if mode == 'bytesio':
             return io.BytesIO(data_box[0])
@@ -262,7 +268,7 @@ def execute(case, tmpdir):
             if mode == 'fileobj' and s is not None:
                 s.close()
 
-    at_completion = bool(case.get('at_completion')) and mode in ('path', 'bytesio')
+    at_completion = bool(case.get('at_completion')) and mode in ('path', 'pathlib', 'bytesio')
 
     def dump_completed():
         dump_state[0] = 'completed'
@@ -382,6 +388,8 @@ def do_replay(path):
     old = w['trace']
     case = {k: old[k] for k in ('N', 'b', 'm', 'compression', 'mode', 'row_group_size',
                                 'schema', 'rowseed', 'origin')}
+    for k in ('resub', 'retry', 'at_completion'):
+        case[k] = old.get(k, False)
     with C.scratch('rxsci-verif.c20.') as d:
         new = execute(case, d)
     v, _ = validate([new], (True, True))
